@@ -22,7 +22,7 @@ func init() {
 func runC21(w *World, r *Report) {
 	defer c21CachedTokenKeepsExpiry(w, r)
 
-	r.Rule("R-C21-1", "acceptance gates (path-sensitive edge cut): for each guard g in {Decrypt error nil, not expired, not revoked} no consistent path of Unwrap / Validate reaches a success return when g's edges are removed", 6)
+	r.Rule("R-C21-1", "acceptance gates (path-sensitive edge cut): for each guard g in {Decrypt error nil, not expired, not revoked, revocation lookup answered} no consistent path of Unwrap / Validate reaches a success return when g's edges are removed", 6)
 	r.Rule("R-C21-2", "Session.Authenticate: the authenticated-by-cache assignment is unreachable once the edges {cached token not expired, cached value is not a full token, cached token has no expiry} are removed", 1)
 	r.Rule("R-C21-3", "revocation coherence: after a successful insert, tokens.Blacklist passes Purge of every cache class that Session.Authenticate uses as an acceptance shortcut and of the revocation cache; Delete and Flush invalidate the revocation cache", 4)
 	r.Rule("R-C21-4", "guarded-by: the package-level revocation store handle in language/tokens is read and written only with the package mutex held", 8)
@@ -74,6 +74,7 @@ func runC21(w *World, r *Report) {
 
 		decErr := extract(decrypt, 1)
 		blkFlag := extract(blk, 0)
+		blkErr := extract(blk, 1)
 
 		guards := []struct {
 			name string
@@ -90,6 +91,11 @@ func runC21(w *World, r *Report) {
 				return ok && callID(c.Common()) == "time.Duration.Seconds"
 			})},
 			{"not-revoked", cutEdges(fn, func(f Fact) bool { return f.Kind == "false" && blkFlag != nil && f.V == blkFlag })},
+			// the revocation lookup itself may fail: acceptance must lie behind "its error is nil"
+			// (a test of the lookup's error, or of a variable it was assigned to)
+			{"lookup-answered", cutEdges(fn, func(f Fact) bool {
+				return f.Kind == "nil" && blkErr != nil && derivesFrom(f.V, func(v ssa.Value) bool { return v == blkErr }, nil)
+			})},
 		}
 
 		for _, g := range guards {
